@@ -390,6 +390,16 @@ func scanTokens(data []byte, filename string, start hcl.Pos, mode scanMode) []To
             // with a single "$" or "%", which trips us up because we
             // want to see another character to decide if it's a sequence
             // or an escape.
+            //
+            // The other thing the state machine has no rule for is a carriage
+            // return that isn't part of a CRLF newline. In a bare template
+            // that's an ordinary literal character, so we emit it as a literal
+            // and scan the remainder separately; otherwise everything after
+            // it would be taken literally too, including template sequences.
+            if data[ts] == '\r' && ts+1 < len(data) {
+                f.emitToken(TokenStringLit, ts, ts+1)
+                return append(f.Tokens, scanTokens(data[ts+1:], filename, f.Pos, mode)...)
+            }
             f.emitToken(TokenStringLit, ts, len(data))
         } else {
             f.emitToken(TokenInvalid, ts, len(data))
